@@ -36,7 +36,8 @@ class Contract:
         self.doc = (spec.__doc__ or "").strip()
         self.defaults = g("defaults", {})
         self.terminates = g("terminates", True)
-        self.setup = g("setup", None)            # hook(ex, frame) run before the body (extra assumptions)
+        self.setup = g("setup", None)
+        self.calls = g("calls", None)            # "pure": unknown callables are deterministic partial functions            # hook(ex, frame) run before the body (extra assumptions)
         self.returns_by_case = {k: _labelled(v) for k, v in g("returns_by_case", {}).items()}
         self.raises_by_case = {k: {e: _labelled(c) for e, c in v.items()} for k, v in g("raises_by_case", {}).items()}
         self.key = (file, qualname)
@@ -107,6 +108,18 @@ def contract(file, qualname, props=(), which=None):
         c = Contract(file, qualname, props, spec, which=which)
         REGISTRY.append(c)
         return c
+    return deco
+
+
+SPECFNS = {}
+INSTALLERS = []
+
+
+def specfn(name):
+    """register a spec helper written in Python against the z3 API: f(ex, frame, *args) -> Val"""
+    def deco(f):
+        SPECFNS[name] = f
+        return f
     return deco
 
 
@@ -281,9 +294,8 @@ class _Seq(Desc):
             ex.assume(sym.ty(r.ref) == ex.world.classes.of_py(pc).t)
         ex.assume(r.ref != sym.NONE)
         if self.sk == "bytes":
-            i = z3.Int("i!b")
-            ex.assume(z3.ForAll([i], z3.And(sym.unbox_int(z3.Select(r.arr, i)) >= 0,
-                                            sym.unbox_int(z3.Select(r.arr, i)) < 256)))
+            ex.assume(ex.forall(0, n, lambda i: z3.And(sym.unbox_int(z3.Select(r.arr, i)) >= 0,
+                                                       sym.unbox_int(z3.Select(r.arr, i)) < 256)))
         return r
 
     def accepts(self, v):
